@@ -48,7 +48,7 @@ META = {
     ),
     "C08": dict(
         technique="event/term matching on walked paths of writer, loader and in-place signers (effective open modes, json.load hooks, store targets); custom rules",
-        text="Structural half of persistence: the writer writes exactly canonserialize(metadata) once, in binary mode, to the named file, serializing before opening; the loader returns json.load(open(fname,'rb')) with default hooks, unmodified; every in-place signer stores only under ['signatures'] of the document and writes back the value it loaded to the path it loaded it from; callers of the in-memory signers do not drop the signatures already present.",
+        text="Structural half of persistence: the writer writes exactly canonserialize(metadata) once, in binary mode, to the named file, serializing before opening; the loader returns json.load(open(fname,'rb')) with default hooks, unmodified (also not changed in place); a writer that stages the bytes in another file and moves it onto the name with os.replace is accepted; every in-place signer stores only under ['signatures'] of the document and writes back the value it loaded to the path it loaded it from; callers of the in-memory signers do not drop the signatures already present.",
         note="Partial: json.load(canonserialize(x)) == x and the resulting invariance of verdicts are properties of CPython's json module given these facts; not decided here.",
         ref="5 C08",
     ),
@@ -84,13 +84,13 @@ META = {
     ),
     "C11": dict(
         technique="symbolic walk of sign_all_in_repodata over the loaded document term: event ordering (reset before inserts), per-section loop store matching, sibling-loop agreement, write-set and write-back pairing",
-        text="For every repodata document: the signatures section is reset before any insert; both packages and packages.conda are iterated; each iteration stores exactly {hex(pub of signing key): {'signature': hex(sign(canonserialize(that artifact's metadata)))}} under the artifact's name; nothing else in the document is written; the same value is written back canonically to the same path; the entry shape is the one the envelope verifier reads.",
+        text="For every repodata document: the signatures section is reset before any insert; both packages and packages.conda are iterated; each iteration stores exactly {hex(pub of signing key): {'signature': hex(sign(canonserialize(that artifact's metadata)))}} under the artifact's name; nothing else in the document is written; the same value is written back canonically to the same path; the entry shape is the one the envelope verifier reads; the functions the signer reaches print ASCII-safe text only (a progress line with an artifact name cannot abort the run).",
         note="Client-side acceptance of each reconstructed envelope additionally relies on C01/C02/C05; value-level idempotence ('signing again changes nothing') follows from determinism of Ed25519 (A2).",
         ref="5 C11",
     ),
     "C10": dict(
         technique="term-sequence normalisation of the bytes fed to the hash object (concatenation flattening, BE32/hex codec normal forms) compared with the RFC 4880 v4 trailer written as a term list; event matching for verify; transcription store/del matching",
-        text="On every accepting path of verify_gpg_signature the hash is SHA-256 over exactly data || unhex(other_headers) || 04 ff || be32(len(unhex(other_headers))), and acceptance is from_public_bytes(unhex(key_value)).verify(unhex(signature['signature']), digest) behind the entry/key/data format gates, with InvalidSignature propagating; the verifier writes none of its arguments; module chains are in the import closure; the GPG signing path returns the signer's dict minus keyid (optionally see_also := keyid), signs canonserialize(signed) and files the entry under the raw key value q of the same fingerprint.",
+        text="On every accepting path of verify_gpg_signature the hash is SHA-256 over exactly data || unhex(other_headers) || 04 ff || be32(len(unhex(other_headers))), and acceptance is from_public_bytes(unhex(key_value)).verify(unhex(signature['signature']), digest) behind the entry/key/data format gates, with InvalidSignature propagating; the verifier writes none of its arguments; module chains are in the import closure; the GPG signing path returns the signer's dict minus keyid (optionally see_also := keyid), signs canonserialize(signed) and files the entry under the raw key value q of the same fingerprint, changing nothing else in the envelope.",
         note="Partial: what real GnuPG / securesystemslib emit cannot be examined (neither is installed); transcription is checked assuming the signer returns {keyid, other_headers, signature}. Crypto soundness assumed (A2); lengths < 2**32 (A5).",
         ref="5 C10",
     ),
